@@ -349,27 +349,45 @@ func (r *rewriter) post(c *astutil.Cursor) bool {
 		switch {
 		case r.pkgIdent(n.X, "sync"):
 			switch n.Sel.Name {
-			case "Mutex", "WaitGroup":
+			case "Mutex", "WaitGroup", "RWMutex", "Once":
 				c.Replace(sel(vs, n.Sel.Name))
+			case "Locker":
 			default:
 				die("%s: sync.%s is not supported by the scheduler", r.labelPos(n), n.Sel.Name)
 			}
 		case r.pkgIdent(n.X, "sync/atomic"):
-			die("%s: sync/atomic is not supported by the scheduler", r.labelPos(n))
+			name := n.Sel.Name
+			switch {
+			case name == "Int32" || name == "Int64" || name == "Uint32" || name == "Uint64" || name == "Uintptr" || name == "Bool" || name == "Value" || name == "Pointer":
+				c.Replace(sel(vs, "Atomic"+name))
+			case strings.HasSuffix(name, "Pointer"):
+				die("%s: atomic.%s (unsafe.Pointer) is not supported by the scheduler", r.labelPos(n), name)
+			case strings.HasPrefix(name, "CompareAndSwap"):
+				c.Replace(sel(vs, "AtomicCAS"))
+			case strings.HasPrefix(name, "Add"), strings.HasPrefix(name, "Load"), strings.HasPrefix(name, "Store"), strings.HasPrefix(name, "Swap"):
+				for _, op := range []string{"Add", "Load", "Store", "Swap"} {
+					if strings.HasPrefix(name, op) {
+						c.Replace(sel(vs, "Atomic"+op))
+					}
+				}
+			default:
+				die("%s: atomic.%s is not supported by the scheduler", r.labelPos(n), name)
+			}
 		case r.pkgIdent(n.X, "context"):
 			switch n.Sel.Name {
-			case "WithCancel", "Background":
+			case "WithCancel", "Background", "WithTimeout", "WithDeadline":
 				c.Replace(sel(vs, n.Sel.Name))
+			case "TODO":
+				c.Replace(sel(vs, "Background"))
+			case "DeadlineExceeded":
 			case "Context", "CancelFunc", "Canceled":
 			default:
 				die("%s: context.%s is not supported by the scheduler", r.labelPos(n), n.Sel.Name)
 			}
 		case r.pkgIdent(n.X, "time"):
 			switch n.Sel.Name {
-			case "After", "Sleep", "Now", "Since", "Until":
+			case "After", "Sleep", "Now", "Since", "Until", "NewTimer", "NewTicker", "AfterFunc", "Tick", "Timer", "Ticker":
 				c.Replace(sel(vs, n.Sel.Name))
-			case "NewTimer", "NewTicker", "AfterFunc", "Tick":
-				die("%s: time.%s is not supported by the scheduler", r.labelPos(n), n.Sel.Name)
 			}
 		}
 	case *ast.BasicLit:
@@ -482,6 +500,8 @@ func main() {
 					keep = append(keep, dummy("time", "Duration"))
 				case "context":
 					keep = append(keep, dummy("context", "Context"))
+				case "sync/atomic":
+					keep = append(keep, dummy("atomic", "Int32"))
 				}
 			}
 			f.Decls = append(f.Decls, keep...)
